@@ -827,9 +827,8 @@ func (e *specEnv) eval(x *SX) (Val, types.Type, error) {
 				cell = false
 			}
 			if !cell {
-				if v.Place != nil && v.T == "" {
-					return Val{}, nil, fmt.Errorf("%s is a place", x.Name)
-				}
+				// an interior pointer (&x.f) has a place and no pointer term: usable as the base of a
+				// field selection and in nil tests only (fieldVal / evalBinary); anything else is rejected there
 				return v, e.gtOf(x.Name, v), nil
 			}
 		}
@@ -993,7 +992,17 @@ func (e *specEnv) evalBinary(x *SX) (Val, types.Type, error) {
 		return Val{T: fmt.Sprintf("(or %s %s)", a.T, b.T), S: SBool}, nil, nil
 	case "==", "!=":
 		var t string
-		if b.S == "Nil" {
+		if b.S == "Nil" && a.T == "" && a.Place != nil {
+			t = "false" // interior pointer is never nil
+		} else if a.S == "Nil" && b.T == "" && b.Place != nil {
+			t = "false"
+		} else if (a.T == "" && a.Place != nil) != (b.T == "" && b.Place != nil) {
+			// interior pointer against a pointer to a whole object: distinct in the Burstall model
+			// (a *T term always denotes a standalone allocation)
+			t = "false"
+		} else if a.T == "" && a.Place != nil {
+			return Val{}, nil, fmt.Errorf("two interior pointers compared in %s", op)
+		} else if b.S == "Nil" {
 			t = nilTest(a)
 		} else if a.S == "Nil" {
 			t = nilTest(b)
@@ -1090,6 +1099,14 @@ func (e *specEnv) indexVal(a Val, at types.Type, i Val) (Val, types.Type, error)
 
 func (e *specEnv) fieldVal(a Val, at types.Type, name string) (Val, types.Type, error) {
 	c := e.c
+	if a.T == "" && a.Place != nil {
+		// interior pointer to a struct: read the struct value at the place in the current state
+		if si := c.M.Struct(a.Place.Sort); si != nil {
+			a = Val{T: c.loadPlaceIn(e.st, a.Place), S: a.Place.Sort}
+		} else {
+			return Val{}, nil, fmt.Errorf("field %s of a non-struct place", name)
+		}
+	}
 	if si := c.M.Struct(a.S); si != nil {
 		i := si.FieldIndex(name)
 		if i < 0 {
